@@ -8,17 +8,34 @@ OUT=/verif/seeded/$NAME; mkdir -p $OUT
 cd $WT || exit 2
 DEMO=$(ls tests/demo_*.rs 2>/dev/null | head -1)
 LOG=$OUT/confirm.log; : > $LOG
+if [ -f demo_inline.diff ]; then
+  # inline demo: make sure the working tree holds only the src change
+  git apply -R demo_inline.diff 2>/dev/null
+  cp demo_inline.diff $OUT/
+fi
 git diff -- src > $OUT/patch.diff
 [ -s $OUT/patch.diff ] || { echo "empty patch" | tee -a $LOG; exit 2; }
-[ -n "$DEMO" ] && cp $DEMO $OUT/ 
-[ -f demo_inline.diff ] && cp demo_inline.diff $OUT/
-T=$(basename ${DEMO:-none} .rs)
+[ -n "$DEMO" ] && cp $DEMO $OUT/
+FEAT=""
+grep -q "features benchmarking" ${DEMO:-/dev/null} 2>/dev/null && FEAT="--features benchmarking"
 echo "== with patch: lib tests" >> $LOG
 cargo test --offline --lib 2>&1 | grep -E "^test result|FAILED|panicked" | head -5 >> $LOG
-echo "== with patch: demo ($T)" >> $LOG
-cargo test --offline --test $T 2>&1 | grep -E "^test result|^test .* (ok|FAILED)" | head -20 >> $LOG
-git apply -R $OUT/patch.diff
-echo "== without patch: demo ($T)" >> $LOG
-cargo test --offline --test $T 2>&1 | grep -E "^test result|^test .* (ok|FAILED)" | head -20 >> $LOG
-git apply $OUT/patch.diff
+if [ -f demo_inline.diff ]; then
+  git apply demo_inline.diff
+  echo "== with patch: inline demo" >> $LOG
+  cargo test --offline --lib demo_ 2>&1 | grep -E "^test result|^test .* (ok|FAILED)" | head -20 >> $LOG
+  git apply -R $OUT/patch.diff
+  echo "== without patch: inline demo" >> $LOG
+  cargo test --offline --lib demo_ 2>&1 | grep -E "^test result|^test .* (ok|FAILED)" | head -20 >> $LOG
+  git apply $OUT/patch.diff
+  git apply -R demo_inline.diff
+else
+  T=$(basename ${DEMO:-none} .rs)
+  echo "== with patch: demo ($T) $FEAT" >> $LOG
+  cargo test --offline $FEAT --test $T 2>&1 | grep -E "^test result|^test .* (ok|FAILED)" | head -20 >> $LOG
+  git apply -R $OUT/patch.diff
+  echo "== without patch: demo ($T) $FEAT" >> $LOG
+  cargo test --offline $FEAT --test $T 2>&1 | grep -E "^test result|^test .* (ok|FAILED)" | head -20 >> $LOG
+  git apply $OUT/patch.diff
+fi
 cat $LOG
